@@ -203,6 +203,68 @@ def e2_all(ctx, n):
             ctx.count("E2_valid_routes", "unsolved")
 
 
+def e2_inner_ends(ctx, n):
+    """flows / node sets built from routes that START or END at an INNER node, declared as additional starts / ends: the routes of
+    every answer must then really use the declared nodes (a decomposition exists only with them), in edge and in node mode, for every
+    class that takes the arguments -- the general zoo stream draws starts/ends in 30 % of 30 % of its cases only, and never needs them"""
+    import networkx as nx
+    names = sorted(zoo.HAS_STARTS)
+    for i in range(n):
+        rng = ctx.rng("inner", i)
+        name = names[i % len(names)]; cyc = name.endswith("Cycles"); node = (i // len(names)) % 2 == 1
+        G0 = gen.rand_cyclic(rng, nmax=6) if cyc else gen.rand_dag(rng, nmax=6)
+        allp = None if cyc else gen.all_st_paths(G0)
+        routes = []
+        for _ in range(rng.randint(1, 3)):
+            r = gen.rand_walk(rng, G0, maxlen=9) if cyc else rng.choice(allp)
+            if r: routes.append(list(r))
+        if not routes:
+            continue
+        starts, ends = [], []
+        for j, r in enumerate(routes):
+            if len(r) >= 3 and rng.random() < 0.75:
+                if rng.random() < 0.5:
+                    a = rng.randint(1, len(r) - 2); routes[j] = r = r[a:]; starts.append(r[0])
+                if len(r) >= 3 and rng.random() < 0.6:
+                    b = rng.randint(2, len(r) - 1); routes[j] = r = r[:b]; ends.append(r[-1])
+        if not starts and not ends:
+            continue
+        ws = [rng.randint(1, 4) for _ in routes]
+        G = nx.DiGraph(); G.graph["id"] = f"inner{i}"
+        es = list(G0.edges()); rng.shuffle(es); G.add_edges_from(es)
+        kw = {"additional_starts": sorted(set(starts)), "additional_ends": sorted(set(ends)), "solver_options": {"threads": zoo.THREADS}}
+        if name in zoo.COVER:
+            if node: kw["cover_type"] = "node"
+        else:
+            kw["flow_attr"] = "flow"; kw["weight_type"] = int
+            if node:
+                kw["flow_attr_origin"] = "node"
+                for v in G.nodes(): G.nodes[v]["flow"] = 0
+                for r, w in zip(routes, ws):
+                    for v in r: G.nodes[v]["flow"] += w
+            else:
+                for e in G.edges(): G.edges[e]["flow"] = 0
+                for r, w in zip(routes, ws):
+                    for e in gen.pairs(r): G.edges[e]["flow"] += w
+        if name in zoo.K_MODELS:
+            kw["k"] = len(routes) + rng.choice([0, 1])
+        info = {"class": name, "G": G, "kwargs": kw, "routes": routes, "weights": ws, "node": node, "starts": kw["additional_starts"],
+                "ends": kw["additional_ends"], "ignore": [], "cons": [], "is_int": True}
+        try:
+            m = zoo.construct(info); m.solve()
+        except ValueError:
+            ctx.dist("inner ValueError:" + name); continue
+        except Exception as e:
+            ctx.report(f"{name} raised {e!r}", {"instance": zoo.describe(info)}); continue
+        ctx.case(["inner", zoo.describe(info)], nontrivial=True, sample={"class": name, "node_mode": node, "starts": starts, "ends": ends})
+        ctx.dist(f"inner {name}:{'node' if node else 'edge'}")
+        if m.is_solved():
+            ctx.count("E2_valid_routes", "inner_ends_solved")
+            check_solution(ctx, info, m, m.get_solution())
+        else:
+            ctx.count("E2_valid_routes", "inner_ends_unsolved")
+
+
 def e2_greedy_bound(ctx, n):
     """a k-model never returns more than k routes, also when the greedy shortcut finds more than k paths"""
     import flowpaths as fp
@@ -274,6 +336,7 @@ def run(ctx):
     e3_decode(ctx, ctx.budget(200, 5000))
     e1_kpc(ctx, ctx.budget(60, 1500))
     e2_all(ctx, ctx.budget(240, 6000))
+    e2_inner_ends(ctx, ctx.budget(110, 3000))
     e2_greedy_bound(ctx, ctx.budget(80, 2000))
     e2_float_greedy(ctx, ctx.budget(60, 1500))
     VB.flush()
